@@ -15,7 +15,7 @@ MODULES_SCOPE = ["RotoV.Model.TcModules", "RotoV.Lemmas.TcModules"]
 # rules special-cased for a built-in type (`?` under the built-in Option, `+` on the built-in List) and the `to_string`
 # obligation of f-string parts (resolve_obligations): own module, decisions parameterised by regenerated facts
 PROPS_BUILTIN = "RotoV.Props.C07Builtin"
-MODULES_BUILTIN = ["RotoV.Model.TcBuiltin"]
+MODULES_BUILTIN = ["RotoV.Model.TcBuiltin", "RotoV.Lemmas.TcBuiltin"]
 MODULES = [
     "RotoV.Lemmas.TcRules", "RotoV.Lemmas.UnifyTc", "RotoV.Lemmas.Typing", "RotoV.Lemmas.TypingAux", "RotoV.Lemmas.TypingMono", "RotoV.Lemmas.TypingProg",
     "RotoV.Model.Typing", "RotoV.Model.TcRules", "RotoV.Model.UnifyTc",
